@@ -110,6 +110,17 @@ func genLivenessScript(r *rand.Rand, kind Kind, http bool) *Script {
 		// touching a ResponseWriter after the handler returned, so this shape is in-process only)
 		s.Handler = append(s.Handler, Op{Op: "spawn-send", Msg: msg(false)})
 	}
+	if !http && kind.ClientStreams() && r.Intn(6) == 0 {
+		// the usual reader goroutine of a full-duplex handler, still receiving when the handler returns
+		// (receives are then its business alone: a stream has one receiver at a time)
+		h := []Op{{Op: "spawn-recv"}}
+		for _, o := range s.Handler {
+			if o.Op != "recv" && o.Op != "recvall" {
+				h = append(h, o)
+			}
+		}
+		s.Handler = h
+	}
 	if r.Intn(3) == 0 {
 		s.Ret = Ret{How: pick(r, "status", "plain", "eof"), Code: uint32(1 + r.Intn(16)), Msg: "handler failed"}
 	}
@@ -332,8 +343,16 @@ func runC05(e *core.Env, n int) {
 		} else if kind == ClientStream {
 			sc.Handler = []Op{{Op: "send", Msg: &tpb.Message{Payload: []byte("early reply")}}}
 		}
+		if !c.HTTP && r.Intn(2) == 0 {
+			// with a reader goroutine of the handler that is still receiving when the handler returns
+			sc.Handler = append([]Op{{Op: "spawn-recv"}}, sc.Handler...)
+		}
 		big := &tpb.Message{Payload: make([]byte, 64<<10)}
-		for k := 0; k < 40; k++ {
+		nbig := 40
+		if c.HTTP {
+			nbig = 200 // more than the socket buffers and what net/http discards of an unread request body together
+		}
+		for k := 0; k < nbig; k++ {
 			sc.Sender = append(sc.Sender, Op{Op: "send-until-eof", Msg: big})
 		}
 		sc.Receiver = []Op{{Op: "recvall"}}
